@@ -345,4 +345,54 @@ theorem used_iff {c : Ctx} {s : Store} {S : List Block} (hA : AddrInv c s S) {a 
     · have hu' : (S.drop 1).any (paysKey true a) = false := by simpa using hu
       rw [hu']; exact decide_eq_false (fun h => hu (this.1 h))
 
+-- ------------------------------------------------------------------ 5. corollaries
+
+/-- the fixed-keystore histories of `ledger_correct` (no issuance) are a special case -/
+theorem addr_correct (e : Env) (G : Block) (w0 : World) (evs : List Ev) (H : RunHyp e G w0 evs)
+    (h0 : Inv (e.ctx w0.chain) w0.s w0.chain) (hA0 : AddrInv (e.ctx w0.chain) w0.s w0.chain)
+    (hv0 : w0.v.best = tipMeta w0.chain) (hq0 : w0.queue = []) :
+    (runW e w0 evs).queue = [] → AddrInv (e.ctx (runW e w0 evs).chain) (runW e w0 evs).s (runW e w0 evs).chain := by
+  intro hq
+  have h := addr_correct_issue e G ⟨e.own, w0⟩ (evs.map .node) H.toRunHypI h0 hA0 hv0 hq0
+  rw [runI_map_node] at h
+  exact (h hq).2
+
+/-- THE USED FLAG AFTER ANY HISTORY (hypotheses of `ledger_correct_issue` + initial address clause): once no
+    notification is pending, for every address the final keystore view gives to a wallet, the listed flag
+    (standard-form record or staking-form record positive) is `Spec.Chain.addrUsed` of the node's best chain, and
+    the staking-form record is positive iff a block above the genesis pays the address in staking form.
+    `hG`: the genesis block does not pay the address. -/
+theorem used_flag_issue (e : Env) (G : Block) (x0 : WorldI) (evs : List EvI) (H : RunHypI e G x0 evs)
+    (h0 : Inv ({ e with own := x0.own }.ctx x0.w.chain) x0.w.s x0.w.chain)
+    (hA0 : AddrInv ({ e with own := x0.own }.ctx x0.w.chain) x0.w.s x0.w.chain)
+    (hv0 : x0.w.v.best = tipMeta x0.w.chain) (hq0 : x0.w.queue = [])
+    (hq : (runI e x0 evs).w.queue = [])
+    {a : Addr} {w : Wid} {ch : Bool} (ho : AMap.get (runI e x0 evs).own a = some (w, ch))
+    (hG : addrUsed [G] a = false) :
+    (decide (0 < gA (runI e x0 evs).w.s (w, false, a) ∨ 0 < gA (runI e x0 evs).w.s (w, true, a)) =
+        addrUsed (runI e x0 evs).w.chain a) ∧
+    (decide (0 < gA (runI e x0 evs).w.s (w, true, a)) =
+        ((runI e x0 evs).w.chain.drop 1).any (paysKey true a)) := by
+  obtain ⟨S, ⟨_, _, _, _, _, _, hS, _⟩, hA, _, hN, _⟩ := JIA_final H h0 hA0 hv0 hq0
+  have := hS hq
+  subst this
+  have hlen := hN.good.length_pos
+  have hg : (runI e x0 evs).w.chain[0]? = some G := hN.genesis
+  have ht : (runI e x0 evs).w.chain.take 1 = [G] := by
+    rw [take_succ_of_get hg]; simp
+  exact used_iff hA (c := { e with own := (runI e x0 evs).own }.ctx (runI e x0 evs).w.chain) ho (by rw [ht]; exact hG)
+
+/-- for an address ISSUED during the history the genesis hypothesis follows from `RunHypI.paid` -/
+theorem genesis_not_paid_of_issued {e : Env} {G : Block} {x0 : WorldI} {evs : List EvI} (H : RunHypI e G x0 evs)
+    {a : Addr} {w : Wid} {ch : Bool} (hi : .issue a w ch ∈ evs) : addrUsed [G] a = false := by
+  obtain ⟨pre, post, heq⟩ := List.append_of_mem hi
+  have hp := H.paid pre a w ch post heq x0.w.chain (by
+    cases pre with
+    | nil => exact List.mem_singleton.2 rfl
+    | cons x xs => exact List.mem_cons_self)
+  have hg : x0.w.chain[0]? = some G := H.chain0.genesis
+  have ht : x0.w.chain.take 1 = [G] := by rw [take_succ_of_get hg]; simp
+  rw [← ht]
+  exact addrUsed_take 1 hp
+
 end MW.Lemmas.LedgerFU
